@@ -202,6 +202,15 @@ fn seeds() -> Vec<(&'static str, Prog)> {
     v.push(("out-of-range", Prog { sense: "min".into(), obj: int(1),
         cons: vec![Cons { name: None, lhs: bin(Op::Mul, E::Acc("A".into(), vec![id("i")]), id("z")), rel: Some(("<=".into(), int(1))), iters: vec![it1("i", range(int(0), int(3), true))] }],
         consts: vec![("A".into(), data(&[4, 5, 6]))], decls: vec![Decl { vars: vec![VarName::Simple("z".into())], ty: DomT::Real(None), iters: vec![] }] }));
+    // a range end of 2^63 (a PositiveInteger: the seventh power of the length of a 512-element array) is not an empty range
+    {
+        let a512 = E::Lit(V::Arr((0..512).map(|_| V::Int(1)).collect()));
+        let mut l7 = call("len", vec![id("A")]);
+        for _ in 0..6 { l7 = bin(Op::Mul, l7, call("len", vec![id("A")])); }
+        v.push(("range-end-2pow63", Prog { sense: "min".into(), obj: int(1),
+            cons: vec![Cons { name: Some(VarName::Cv("c".into(), vec![Ix::Id("i".into())])), lhs: id("z"), rel: Some((">=".into(), int(1))), iters: vec![it1("i", range(int(0), l7, false))] }],
+            consts: vec![("A".into(), a512)], decls: vec![Decl { vars: vec![VarName::Simple("z".into())], ty: DomT::Real(None), iters: vec![] }] }));
+    }
     // string / float / negative indexes
     v.push(("odd-indexes", Prog { sense: "min".into(), obj: int(1),
         cons: vec![Cons { name: None, lhs: bin(Op::Add, cv("x", vec![Ix::Id("s".into())]), cv("y", vec![Ix::Ex(bin(Op::Sub, id("i"), int(2)))])), rel: Some(("<=".into(), int(1))),
